@@ -224,6 +224,9 @@ Definition fields_ok (M : list (string * list (string * string))) : bool :=
 Inductive ident := IOrig (k : nat) | IBoundRef (t : N) | ICopy.
 Record arg := mkArg { a_v : Z; a_id : ident }.
 Inductive result := RInt (v : Z) | RRef (a : arg) | RVoid | RThrow.
+(* what the catcher of exception_catch does inside the handler: catcher c returns c; the catchers
+   numbered from 5000 handle nothing and rethrow the exception in flight *)
+Definition catcher_result (c : N) : result := if N.ltb c 5000 then RInt (Z.of_N c) else RThrow.
 Definition log := list (N * list arg).
 
 Fixpoint weighted (i : Z) (l : list arg) : Z :=
@@ -291,7 +294,7 @@ Fixpoint call_doc (e : fexpr) (args : list arg) : log * result :=
       end
   | FExcCatch f c =>
       let '(l, r) := call_doc f args in
-      (l, match r with RThrow => RInt (Z.of_N c) | _ => r end)
+      (l, match r with RThrow => catcher_result c | _ => r end)
   | FTrackObj f _ => call_doc f args
   | FSlot f => call_doc f args
   end.
@@ -403,7 +406,7 @@ Fixpoint call (M : mtable) (S : stable) (e : fexpr) (deduced : bool) (args : lis
                   end
         end))
   | FExcCatch f c =>
-      cbind (call M S f true args') (fun l r => COk l (match r with RThrow => RInt (Z.of_N c) | _ => r end))
+      cbind (call M S f true args') (fun l r => COk l (match r with RThrow => catcher_result c | _ => r end))
   | FTrackObj f _ => call M S f true args'
   | FSlot f => call M S f false args       (* call_it instantiates the outermost adaptor explicitly *)
   end.
